@@ -252,6 +252,59 @@ def to_term(p, atoms):
     return parts[0] if len(parts) == 1 else z3.Sum(parts)
 
 
+def canonical(p, positive_ids=()):
+    """(key, sign): p = sign-carrying positive multiple of the polynomial identified by key: monomial content in atoms known to be
+    positive removed, leading coefficient (graded lex) normalised to 1; sign = sign of the removed factor"""
+    if p.is_zero():
+        return (), 0
+    q = p
+    pos = set(positive_ids)
+    if pos:
+        mins = {}
+        for m in p.c:
+            d = dict(m)
+            for i in pos:
+                e = d.get(i, 0)
+                mins[i] = e if i not in mins else min(mins[i], e)
+        mins = {i: e for i, e in mins.items() if e > 0}
+        if mins:
+            cont = tuple(sorted(mins.items()))
+            q = Poly({_mdiv(m, cont): v for m, v in p.c.items()})
+    order = _make_key(q)
+    lead = q.c[_lead(q, order)]
+    q = q.scale(1 / lead)
+    return tuple(sorted(q.c.items())), (1 if lead > 0 else -1)
+
+
+def square_content(p, positive_ids=()):
+    """p = mono^2 * rest with mono a monomial (largest even common power of every atom) times a rational perfect square;
+    returns (mono as {id: exp}, rational factor of the root, rest)"""
+    if p.is_zero():
+        return {}, Fraction(1), p
+    mins = {}
+    first = True
+    for m in p.c:
+        d = dict(m)
+        if first:
+            mins = dict(d)
+            first = False
+        else:
+            mins = {i: min(e, d.get(i, 0)) for i, e in mins.items()}
+    half = {i: e // 2 for i, e in mins.items() if e // 2 > 0}
+    rest = p
+    if half:
+        cont = tuple(sorted((i, 2 * e) for i, e in half.items()))
+        rest = Poly({_mdiv(m, cont): v for m, v in p.c.items()})
+    order = _make_key(rest)
+    lead = rest.c[_lead(rest, order)]
+    r = _rat_sqrt(abs(lead))
+    fac = Fraction(1)
+    if r is not None and r != 0 and r != 1:
+        rest = rest.scale(1 / (r * r))
+        fac = r
+    return half, fac, rest
+
+
 def perfect_square_root(term):
     """z3 term q >= or <= 0 with q*q == term as polynomials over Q (atoms = non-polynomial subterms), or None"""
     atoms = {}
